@@ -241,6 +241,23 @@ class Scenario:
         self.bdir = bdir
         self.mode, self.lines = scenario_script(name)
 
+    def stale_files(self):
+        if getattr(self, "_stale", None) is None:
+            d = core.mkscratch("fsst")
+            try:
+                sp = os.path.join(d, "script")
+                open(sp, "w").write("\n".join(self.lines) + "\n")
+                rc, out, err = core.run([self.drv, sp, os.path.join(d, "log")], timeout=60,
+                                        env={"OVNI_TRACEDIR": os.path.join(d, "final")}, cwd=d)
+                sd = os.path.join(d, "final", "loom.node0", "proc.1000", "thread.1000")
+                data = open(os.path.join(sd, "stream.obs"), "rb").read()
+                c0 = struct.unpack("<Q", data[12:20])[0]
+                # header + the execute event + an end event: a complete, much shorter stream
+                self._stale = (data[:36] + obs.ev("OHe", c0 + 1), open(os.path.join(sd, "stream.json"), "rb").read())
+            finally:
+                shutil.rmtree(d, ignore_errors=True)
+        return self._stale
+
     def run(self, inject=None, keep=False, shim=None):
         """one run under strace; returns dict(calls, rc, stderr, state, emu, dir)"""
         d = core.mkscratch("fs")
@@ -250,6 +267,14 @@ class Scenario:
             env = {"OVNI_TRACEDIR": os.path.join(d, "final")}
             if self.mode == "tmp":
                 env["OVNI_TMPDIR"] = os.path.join(d, "tmp")
+            if self.name.endswith("-stale"):
+                # the final thread directory still holds the finished (shorter) stream of an earlier run with
+                # the same loom / pid / tid: it must not vouch for the new run
+                sobs, sjson = self.stale_files()
+                sd = os.path.join(env["OVNI_TRACEDIR"], "loom.node0", "proc.1000", "thread.1000")
+                os.makedirs(sd)
+                open(os.path.join(sd, "stream.obs"), "wb").write(sobs)
+                open(os.path.join(sd, "stream.json"), "wb").write(sjson)
             if self.name.endswith("-pre"):
                 # the trace directories already exist (another process of the loom was there first)
                 for root in (env.get("OVNI_TMPDIR"), env["OVNI_TRACEDIR"]):
@@ -334,7 +359,7 @@ def mark_stream_writes(res):
     fd = None
     for c in res["calls"]:
         if c["sys"] in ("openat", "open") and "stream.obs" in c["args"] and work in c["args"] \
-                and "O_RDONLY" not in c["args"] and "O_TRUNC" not in c["args"]:
+                and "O_RDONLY" not in c["args"]:      # (the copy destination is in the other directory)
             fd = c["ret"]
         elif c["sys"] == "write" and fd is not None and c["args"].startswith("%d," % fd):
             c["_stream"] = True
@@ -362,7 +387,7 @@ def main(pid, tier):
             ck.violation("RtFs model violates %s" % r.violated, {"tlc.out": r.out[-20000:]})
     ck.phase("tlc")
     names = ["small-direct", "small-tmp", "boundary-tmp", "one-direct", "one-tmp", "boundary-direct", "bigmeta-tmp",
-             "small-tmp-pre", "one-direct-pre", "attr-tmp"]
+             "small-tmp-pre", "one-direct-pre", "attr-tmp", "small-tmp-stale", "small-direct-stale"]
     if tier == "thorough":
         names += ["big-tmp", "big-direct", "bigmeta-direct", "attr-direct"]
     execs = []
@@ -468,12 +493,20 @@ def main(pid, tier):
             redo.append(rj)
         else:
             rejected.append(rj)
+    # executions left unvalidated because the rejection budget of the first pass was used up
+    # (call-by-call drift is expected in some scenarios): they are judged by the monitors as well
+    for i in tvr.skipped:
+        redo.append((i, 0, execs[i][0], "", None))
     if redo:
         ex2 = []
         for (i, line, rec, tail, violated) in redo:
-            head = dict(execs[i][0], kind="fault")
+            k0 = execs[i][0]["kind"]
+            head = dict(execs[i][0], kind="fault" if k0 == "replay" else k0)
             ex2.append([head, execs[i][-1]])
-        tv2 = tv.validate("RtFsTrace", "RtFsTrace.cfg", ex2, None, chunk=max(10, len(ex2) // 8 + 1), parallel=8)
+        tv2 = tv.validate("RtFsTrace", "RtFsTrace.cfg", ex2, None, chunk=max(10, len(ex2) // 8 + 1), parallel=8,
+                          max_reject=100000)
+        if tv2.skipped:
+            raise core.MachineryError("trace validation left %d executions unjudged" % len(tv2.skipped))
         bad2 = {k: v for (k, _l, _r, _t, _v) in tv2.rejected for v in [(_l, _r, _t, _v)]}
         for k, rj in enumerate(redo):
             if k in bad2:
